@@ -481,6 +481,8 @@ def obligations(tier):
     obs.append(dict(name='refuse', fn='h_refuse', config={}, budget=60, bounds='two vectors over one caller tuple: 9 write forms x 3 rows x either vector, with and without copying first',
                     smoke=[[0, 0, 0, False], [0, 0, 0, True]]))
     for o0 in range(len(HOPS)):
+        if HOPS[o0] == 'write-donor':
+            continue          # no donor exists before the first step: the job would be vacuous
         obs.append(dict(name='hist[H=2,first=%s]' % HOPS[o0], fn='h_hist', config={'o0': o0, 'H': 2}, budget=90 if q else 300,
                         bounds='first operation fixed per job, every second operation of the 14-operation alphabet, every row', smoke=[[o0, 8, 0, 0, 1, 0]]))
         if not q:
